@@ -372,6 +372,13 @@ impl Exec {
                 h.add_hashed(pu(t[2]));
                 "ok".into()
             }
+            ("hll.extend", Inst::Hll(h)) => {
+                // Extend<T> is only implemented for the default hasher type; exercised in exp_glue
+                for x in t[2..].iter() {
+                    h.add(&pu(x));
+                }
+                "ok".into()
+            }
             ("hll.addmany", Inst::Hll(h)) => {
                 let mut sm = crate::script::SplitMix(pu(t[2]));
                 for _ in 0..pu(t[3]) {
@@ -515,6 +522,10 @@ impl Exec {
                 r.add(pu(t[2]));
                 "ok".into()
             }
+            ("res.extend", Inst::Res(r)) => {
+                r.extend(t[2..].iter().map(|x| pu(x)));
+                "ok".into()
+            }
             ("res.get", Inst::Res(r)) => {
                 let v: Vec<String> = r.reservoir().iter().map(|x| x.to_string()).collect();
                 format!("{} {} : {}", r.k(), r.i(), v.join(" "))
@@ -541,6 +552,12 @@ impl Exec {
             // CMSHeap -----------------------------------------------------------------------
             ("heap.add", Inst::Heap(h)) => {
                 h.add(HKey { id: pu(t[2]), class: pu(t[3]) });
+                "ok".into()
+            }
+            ("heap.extend", Inst::Heap(h)) => {
+                // heap.extend <inst> id:class ...   (columns are recomputed by the model from the ops line: id:class:c0,c1,..)
+                let items: Vec<HKey> = t[2..].iter().map(|x| { let p: Vec<&str> = x.split(':').collect(); HKey { id: pu(p[0]), class: pu(p[1]) } }).collect();
+                h.extend(items);
                 "ok".into()
             }
             ("heap.iter", Inst::Heap(h)) => {
